@@ -472,7 +472,7 @@ template <class E> static void family_import_reuse(E &e, long &kc, size_t n) {
 			if (!a1) { violation("C02/" + enc + "/import-refused-bijection", "import refused a stack secret whose index vector is a bijection", J().kv("text", shorten(t1, 300)).str()); continue; }
 			bool a2 = accepted([&] { return obj.import(t2); });
 			tried++; count("imports_into_used_object");
-			if (a2) violation("C02/" + enc + "/import-into-used-object-accepted-non-bijection",
+			if (a2) violation("C02/import-into-used-object/accepted-non-bijection/" + enc,
 			                  "import() into a stack secret object that already holds an (earlier imported) secret accepted an index vector that is not a bijection",
 			                  J().kv("n", (ll)n).raw("first_vector", vec_json(first)).raw("second_vector", vec_json(second)).kv("first_text", shorten(t1, 300)).kv("second_text", shorten(t2, 300)).kv("size_after", (ll)obj.size()).raw("index_component_after", vec_json(index_of(obj))).str());
 			if (sample.empty()) sample = J().kv("enc", enc).kv("src", "import into used object").raw("first_vector", vec_json(first)).raw("second_vector", vec_json(second)).kv("second_accepted", a2).kv("size_after", (ll)obj.size()).str();
